@@ -190,3 +190,20 @@ def run(ctx, pid):
                         "after extend/prepend only OriginalValuesKnown::No changesets are judged (documented by the API)",
                         "a revert slot recorded as 'destroyed' reads as the pre-bundle value when the entry is wiped, else zero"]
     return res
+
+
+def replay_one(ctx, rp):
+    """Re-execute one recorded edge on the current tree and let BundleJudge decide it again."""
+    cfgp = ctx.path("replay.cfg.json")
+    json.dump(rp["cfg"], open(cfgp, "w"))
+    inp = vf.write_ndjson(ctx.path("replay.in.ndjson"), [rp["edge"]])
+    recp = ctx.path("replay.rec.ndjson")
+    layer = [a for a in rp["vh_args"] if a.startswith("layer=")][0]
+    vf.vh(vf.cargo_build("bundle"), ["record", inp, recp, "cfg=" + cfgp, layer])
+    print(open(recp).read().strip()[:3000])
+    jr = vf.tlc(ctx, "BundleJudge", vf.cfg(rp["judge_consts"], view=None, invariants=["Done"]), name="replay_judge",
+                workers=1, timeout=600, env={"TRACE": recp}, xss="1g", coverage=False)
+    rej = jr.lines.get("REJECT", [])
+    for r in rej:
+        print("REJECT", json.dumps(r))
+    return bool(rej)
